@@ -168,6 +168,13 @@ func (f *DB) Reload(path string, validationKey []byte, reloadTimeout time.Durati
 	var destroyNewDbi bool
 	var err error
 
+	// The reload may work on the current backend for as long as it runs (RocksDB
+	// catches up with its primary) and may outlive this call when it times out:
+	// pin the backend like a reader does, so that it cannot be closed under it.
+	f.l.Lock()
+	f.refCount++
+	f.l.Unlock()
+
 	// reload goroutine
 	go func() {
 		var localDBI DBI
@@ -179,6 +186,7 @@ func (f *DB) Reload(path string, validationKey []byte, reloadTimeout time.Durati
 		} else {
 			newDBI = localDBI
 		}
+		f.unpin()
 		close(c)
 	}()
 
@@ -231,6 +239,17 @@ func (f *DB) Reload(path string, validationKey []byte, reloadTimeout time.Durati
 	}
 
 	return f, nil
+}
+
+// unpin drops a reference taken on the DB; the last reference of a destroyed DB closes it.
+func (f *DB) unpin() {
+	f.l.Lock()
+	defer f.l.Unlock()
+	f.refCount--
+	if f.destroyable && f.refCount == 0 {
+		glog.Infof("refcount == 0 && destroyable: Closing DB")
+		f.dbi.Close()
+	}
 }
 
 // validateDbKeyOrDestroy validates DB with the validationKey, and destroys the
